@@ -461,7 +461,147 @@ def ecdh_p256(priv, pub):
     return R[0].to_bytes(32, "big")
 
 
+# ---- DSA with python integers (FIPS 186-4)
+def _dsa_z(q, digest_bytes):
+    n = q.bit_length()
+    z = int.from_bytes(digest_bytes, "big")
+    if len(digest_bytes) * 8 > n:
+        z >>= len(digest_bytes) * 8 - n
+    return z
+
+
+def dsa_verify(key, digest_bytes, sig):
+    p_, q, g, y = key["p"], key["q"], key["g"], key["y"]
+    ql = (q.bit_length() + 7) // 8
+    if len(sig) != 2 * ql:
+        return False
+    r, s_ = int.from_bytes(sig[:ql], "big"), int.from_bytes(sig[ql:], "big")
+    if not (0 < r < q and 0 < s_ < q):
+        return False
+    w = pow(s_, -1, q)
+    z = _dsa_z(q, digest_bytes)
+    v = (pow(g, z * w % q, p_) * pow(y, r * w % q, p_) % p_) % q
+    return v == r
+
+
+def dsa_sign(key, digest_bytes, k):
+    p_, q, g, x = key["p"], key["q"], key["g"], key["x"]
+    ql = (q.bit_length() + 7) // 8
+    r = pow(g, k, p_) % q
+    s_ = pow(k, -1, q) * (_dsa_z(q, digest_bytes) + x * r) % q
+    if r == 0 or s_ == 0:
+        return None
+    return r.to_bytes(ql, "big") + s_.to_bytes(ql, "big")
+
+
+# ---- Ed25519 (RFC 8032, pure: deterministic signatures)
+_EP = 2 ** 255 - 19
+_EL = 2 ** 252 + 27742317777372353535851937790883648493
+_ED = -121665 * pow(121666, -1, _EP) % _EP
+_EI = pow(2, (_EP - 1) // 4, _EP)
+
+
+def _ed_add(P, Q):
+    A = (P[1] - P[0]) * (Q[1] - Q[0]) % _EP
+    B = (P[1] + P[0]) * (Q[1] + Q[0]) % _EP
+    Cc = 2 * P[3] * Q[3] * _ED % _EP
+    Dd = 2 * P[2] * Q[2] % _EP
+    E, F, G, H = B - A, Dd - Cc, Dd + Cc, B + A
+    return (E * F % _EP, G * H % _EP, F * G % _EP, E * H % _EP)
+
+
+def _ed_mul(s_, P):
+    Q = (0, 1, 1, 0)
+    while s_ > 0:
+        if s_ & 1:
+            Q = _ed_add(Q, P)
+        P = _ed_add(P, P)
+        s_ >>= 1
+    return Q
+
+
+def _ed_recover_x(y, sign):
+    x2 = (y * y - 1) * pow(_ED * y * y + 1, -1, _EP) % _EP
+    if x2 == 0:
+        return None if sign else 0
+    x = pow(x2, (_EP + 3) // 8, _EP)
+    if (x * x - x2) % _EP != 0:
+        x = x * _EI % _EP
+    if (x * x - x2) % _EP != 0:
+        return None
+    if (x & 1) != sign:
+        x = _EP - x
+    return x
+
+
+_EGY = 4 * pow(5, -1, _EP) % _EP
+_EGX = _ed_recover_x(_EGY, 0)
+_EG = (_EGX, _EGY, 1, _EGX * _EGY % _EP)
+
+
+def _ed_compress(P):
+    zi = pow(P[2], -1, _EP)
+    x, y = P[0] * zi % _EP, P[1] * zi % _EP
+    return (y | ((x & 1) << 255)).to_bytes(32, "little")
+
+
+def _ed_decompress(b):
+    y = int.from_bytes(b, "little")
+    sign = y >> 255
+    y &= (1 << 255) - 1
+    if y >= _EP:
+        return None
+    x = _ed_recover_x(y, sign)
+    if x is None:
+        return None
+    return (x, y, 1, x * y % _EP)
+
+
+def _ed_expand(secret):
+    hh = hashlib.sha512(secret).digest()
+    a = int.from_bytes(hh[:32], "little")
+    a &= (1 << 254) - 8
+    a |= 1 << 254
+    return a, hh[32:]
+
+
+def ed25519_public(secret):
+    a, _ = _ed_expand(secret)
+    return _ed_compress(_ed_mul(a, _EG))
+
+
+def ed25519_sign(secret, msg):
+    a, prefix = _ed_expand(secret)
+    A = _ed_compress(_ed_mul(a, _EG))
+    r = int.from_bytes(hashlib.sha512(prefix + msg).digest(), "little") % _EL
+    Rs = _ed_compress(_ed_mul(r, _EG))
+    hh = int.from_bytes(hashlib.sha512(Rs + A + msg).digest(), "little") % _EL
+    return Rs + ((r + hh * a) % _EL).to_bytes(32, "little")
+
+
+def ed25519_verify(public, msg, sig):
+    if len(public) != 32 or len(sig) != 64:
+        return False
+    A = _ed_decompress(public)
+    R = _ed_decompress(sig[:32])
+    s_ = int.from_bytes(sig[32:], "little")
+    if A is None or R is None or s_ >= _EL:
+        return False
+    hh = int.from_bytes(hashlib.sha512(sig[:32] + public + msg).digest(), "little") % _EL
+    sB = _ed_mul(s_, _EG)
+    hA = _ed_add(R, _ed_mul(hh, A))
+    # compare projective points
+    return (sB[0] * hA[2] - hA[0] * sB[2]) % _EP == 0 and (sB[1] * hA[2] - hA[1] * sB[2]) % _EP == 0
+
+
 def selftest():
+    # RFC 8032 7.1 test 2
+    sk = bytes.fromhex("4ccd089b28ff96da9db6c346ec114e0f5b8a319f35aba624da8cf6ed4fb8a6fb")
+    assert ed25519_public(sk).hex() == "3d4017c3e843895a92b70aa74d1b7ebc9c982ccf2ec4968cc0cd55f12af4660c"
+    sg = ed25519_sign(sk, bytes.fromhex("72"))
+    assert sg.hex() == ("92a009a9f0d4cab8720e820b5f642540a2b27b5416503f8fb3762223ebdb69da"
+                        "085ac1e43e15996e458f3613d0f11d8c387b2eaeb4302aeeb00d291612bb0c00")
+    assert ed25519_verify(ed25519_public(sk), bytes.fromhex("72"), sg) and not ed25519_verify(ed25519_public(sk), b"x", sg)
     # RFC 3394 4.1, RFC 4493 example 2, NIST CBC, FIPS 180 etc.
     kek = bytes.fromhex("000102030405060708090A0B0C0D0E0F")
     assert keywrap(kek, bytes.fromhex("00112233445566778899AABBCCDDEEFF")).hex().upper() == \
